@@ -70,6 +70,8 @@ impl Exec for AnonymousFunction {
             params: self.params.clone(),
             body: Body::Lang(body),
             return_type: self.return_type.clone(),
+            #[cfg(feature = "verif")]
+            helper: crate::verif::in_helper_scope(),
         }
         .into())
     }
